@@ -331,31 +331,37 @@ impl Uplinks {
                             }) = map_uplinks.get_mut(&lane_id)
                             {
                                 let synced = std::mem::replace(send_synced, false);
-                                let write = if synced {
+                                if synced {
                                     *queued = false;
                                     let lane_name =
                                         registry.name_for(lane_id).expect(UNREGISTERED_LANE);
                                     sender.update_lane(lane_name);
-                                    WriteTask::new(
+                                    break Some(WriteTask::new(
                                         sender,
                                         buffer,
                                         WriteAction::MapSynced(Some(Box::new(std::mem::take(
                                             backpressure,
                                         )))),
-                                    )
+                                    ));
                                 } else {
+                                    let had_data = backpressure.has_data();
                                     backpressure.prepare_write(&mut buffer);
                                     if backpressure.has_data() {
                                         write_queue.push_back((UplinkKind::Map, lane_id));
                                     } else {
                                         *queued = false;
                                     }
-                                    let lane_name =
-                                        registry.name_for(lane_id).expect(UNREGISTERED_LANE);
-                                    sender.update_lane(lane_name);
-                                    WriteTask::new(sender, buffer, WriteAction::Event)
-                                };
-                                break Some(write);
+                                    if had_data {
+                                        let lane_name =
+                                            registry.name_for(lane_id).expect(UNREGISTERED_LANE);
+                                        sender.update_lane(lane_name);
+                                        break Some(WriteTask::new(
+                                            sender,
+                                            buffer,
+                                            WriteAction::Event,
+                                        ));
+                                    }
+                                }
                             }
                         }
                     }
